@@ -47,7 +47,7 @@ def rule_TR1(rep, prog, ex, k):
                 rep.require(rid, ok, t.where, o, "wait-cas-shape", "_dispatch_once_wait may only OR the waiters bit into a gate that is not DONE "
                             "(old range up to %#x, new %r)" % (t.old.uhi, t.new), sample={"site": o, "new": repr(t.new)})
             else:
-                rep.violation(rid, t.where, o, "unclassified-once-writer:%s" % o, "%s writes dgo_once but is not a classified writer" % o)
+                rep.classified(rid, o, False, t.where, o, "unclassified-once-writer:%s" % o, "%s writes dgo_once but is not a classified writer" % o)
     for need in ("_dispatch_once_gate_tryenter", "_dispatch_once_mark_done", "_dispatch_once_wait"):
         if need not in seen:
             rep.unknown(rid, "anchor vanished: no dgo_once write in %s" % need)
